@@ -23,7 +23,7 @@ from vlib import vZ, vlist, vpair
 
 LEVEL = "proof"
 TRUSTED_BASE = [
-    "Coq 8.16.1 kernel + vm_compute (case evaluation, the two refutation witnesses, the finite dispatch comparison); "
+    "Coq 8.16.1 kernel + vm_compute (case evaluation, the finite dispatch comparison); "
     "no native_compute",
     "axioms: none (Print Assumptions: Closed under the global context for every C04 theorem)",
     "Model/Dot.v as a transcription of the Python source of the numba kernels (_csr_csr_count_nnz, _dot_csr_csr incl. its "
@@ -55,10 +55,9 @@ ASSUMPTIONS = [
 ]
 UNPROVED = [
     "einsum_single_den (DESIGN MVP): not modelled; einsum is differential only",
-    "value theorems of _dot_csr_ndarray(_sparse), _dot_csc_ndarray(_sparse), _dot_coo_ndarray_sparse, "
-    "_dot_ndarray_coo(_sparse) (DESIGN extension): only _dot_coo_ndarray (termination and values) is proved; the others by "
-    "correspondence with the Spec inside Coq",
-    "csc_ndarray_*_partial: no positive theorem for _dot_csc_ndarray_sparse (only the two refutations)",
+    "value theorems of _dot_csr_ndarray(_sparse), _dot_csc_ndarray (dense), _dot_coo_ndarray_sparse, "
+    "_dot_ndarray_coo(_sparse) (DESIGN extension): only _dot_coo_ndarray and _dot_csc_ndarray_sparse are proved; the others "
+    "by correspondence with the Spec inside Coq",
     "prune_den (GCXS(..., prune=True) keeps the dense meaning) and csr_den = gden bridge: correspondence only",
     "matmul batch broadcasting, kron_den, multi-operand einsum (DESIGN extension)",
 ]
@@ -66,8 +65,10 @@ UNPROVED = [
 CL_D20 = "D20_gcxs_zero_extent"
 CL_SCIPY = "scipy_operand_rejected"
 CL_SHORTCUT = "zero_size_shortcut_ignores_return_type"
-CL_CSCND = "csc_ndarray_sparse_rows_unsorted"
-CL_CSCCOUNT = "csc_ndarray_sparse_count_overestimates_on_cancellation"
+# (csc_ndarray_sparse_rows_unsorted and csc_ndarray_sparse_count_overestimates_on_cancellation were repaired in /repo:
+#  no clause any more, a recurrence is a new violation)
+CL_CSCND = None
+CL_CSCCOUNT = None
 CL_EINSUM_ZEROS = "einsum_result_stores_explicit_zeros"
 
 PER_CASE_TIMEOUT = 15.0     # vlib allows 4x this per case (see run_impl): 60 s; JIT compilation of a kernel chain under load takes 10-25 s
@@ -854,7 +855,7 @@ def campaign(build, tier, seed, report, budget=1):
                               3: "_csr_csr_count_nnz differs from the model's pre-count",
                               4: "model output differs from the Spec (theorem instance fails)",
                               5: "kernel output differs from the Spec",
-                              6: "the pre-count exceeds the cells written (a sum cancelled to zero): data/indices end in "
+                              6: "the pre-count differs from the number of cells written: data/indices end in "
                                  "uninitialised memory and indptr does not describe the written cells",
                               7: "row indices inside a column of the CSC result are not increasing"}[code],
                      "case": c, "impl": r, "replay_py": replay_kernel(c)})
